@@ -176,7 +176,7 @@ impl Prop for C16 {
          the Count cell, the Info table and the bodies in a generated order with gaps, records in a generated order, bodies anywhere (incl. an empty body at the very end of the data), offsets relative to the end of the header when present; optionally every record also carries its file name as a label (as the games' files do; names such as Data included) the tables are placed without word alignment, and two records may name overlapping ranges (one body, or a sub-range of it); the bin-archive image is written by \
          the independent reference writer (canonical or permuted tables / moved strings). Oracle: arc::from_bytes returns exactly one entry per record, keyed by name, with exactly the recorded bytes. Negative variants: Count label removed => Err, Info label removed => Err, \
          one record without a name pointer => Err, one record whose range leaves the data region (by 1..=256 bytes, or an offset field near 2^32) => Err; never a panic, in both builds. \
-         1 case in 100 packs 260..=1 200 files; 1 body in 800 is 3 000..70 000 bytes; 1 name in ~120 is up to 36 KiB long; without the header one layout in three starts the data region with the Info table (first word = name cell of the first record) instead of the Count cell. Non-trivial: >= 2 files and (no header, or record order != body order, or an empty file). Distinct = distinct case value."
+         1 case in 100 packs 260..=1 200 files; 1 body in 800 is 3 000..70 000 bytes; 1 name in ~120 is up to 36 KiB long; without the header one layout in three starts the data region with the Info table (first word = name cell of the first record) instead of the Count cell. One alternative image in four is laid out so that the text offset of the first label name EQUALS the value of a name pointer (cells' strings first, NUL padding, then the label names). Non-trivial: >= 2 files and (no header, or record order != body order, or an empty file). Distinct = distinct case value."
             .into()
     }
     fn assumptions() -> Vec<String> {
@@ -236,7 +236,7 @@ impl Prop for C16 {
 
     fn run(case: &Case, cx: &mut Cx) {
         let b = build(case);
-        let image = if case.alt_image { refbin::write_layout(&b.content, case.layout_seed) } else { refbin::write_canonical(&b.content, None) };
+        let image = if case.alt_image { refbin::write_layout_mode(&b.content, case.layout_seed, case.layout_seed % 4 == 2) } else { refbin::write_canonical(&b.content, None) };
         let res = match cx.call(|| arc::from_bytes(&image)) {
             Some(r) => r,
             None => return,
